@@ -33,7 +33,7 @@ func init() {
 		PropCheck: "prop_bad_ids",
 		Gen:    c14Gen,
 		Run:    c14Run,
-		Rule:   "structured op sequences (read sizes around the 64-byte block and path boundary incl. nil and 255..257 / 1024 / 4096-byte buffers, Store/Restore at every offset, crafted states with large counters, constructor/restore length errors incl. nil, lengths that are valid only modulo 256, and a rejected restore followed by more output of the untouched generator); fork: a generator restored from a checkpoint runs NEXT TO the original, which keeps being used, both must give the same bytes under different read chunkings and the same Store(); derived: UintN / Permutation / SubPermutation / Shuffle on the generator and on one restored from the checkpoint taken just before must agree, and the raw stream afterwards must continue at the position Store() reports; every buffer given to the constructor / RestoreChacha20PRG must come back unmodified and is overwritten by the harness right after the call; states returned by Store() are kept un-copied and re-read at the end; a case is non-trivial if it produced at least one output byte or exercised a rejection; distinct by (seed, customizer, op list)",
+		Rule:   "structured op sequences (read sizes around the 64-byte block and path boundary incl. nil and 255..257 / 1024 / 4096-byte buffers, Store/Restore at every offset, crafted states with large counters, constructor/restore length errors incl. nil, lengths that are valid only modulo 256, and a rejected restore followed by more output of the untouched generator); fork: a generator restored from a checkpoint runs NEXT TO the original, which keeps being used, both must give the same bytes under different read chunkings and the same Store(); derived: UintN / Permutation / SubPermutation / Shuffle on the generator and on one restored from the checkpoint taken just before must agree, and the raw stream afterwards must continue at the position Store() reports; every buffer given to the constructor / RestoreChacha20PRG must come back unmodified and is overwritten by the harness right after the call; states returned by Store() are kept un-copied and re-read at the end; a case is non-trivial if it produced at least one output byte or exercised a rejection; distinct by (seed, customizer, op list); sampler sizes 256..700 and samplers run first after a checkpoint for odd sizes",
 		Shard:  20,
 	})
 }
